@@ -356,6 +356,9 @@ func (o Options) pathFromDocument(ldCtx *ld.Context, docObj interface{},
 				return nil, fmt.Errorf("index %d is out of range", i64)
 			}
 			docObj = docArr[i64]
+		} else if i64 != 0 {
+			// a value that is not an array is the only member there is
+			return nil, fmt.Errorf("index %d is out of range", i64)
 		}
 
 		moreParts, err := o.pathFromDocument(ldCtx, docObj, newPathParts, true)
